@@ -30,6 +30,12 @@ pub enum WOp {
     PendingToInvalid(u8, u8),
     Misbehaving(u8, u8),
     Abandon(u8),
+    /// the same notification handled twice (accepted again with the same receipt and balance)
+    RepeatReceipt(u8, u8),
+    /// an acceptance that was in flight when the tower was proven misbehaving on that very appointment
+    LateReceipt(u8, u8),
+    RepeatPending(u8, u8),
+    RepeatInvalid(u8, u8),
 }
 
 fn tower_id(t: u8) -> TowerId {
@@ -190,6 +196,22 @@ impl WWorld {
                             v.push(WOp::Invalid(t, l));
                             v.push(WOp::Misbehaving(t, l));
                         }
+                        if has_receipt && rt_.proof.is_none() {
+                            v.push(WOp::RepeatReceipt(t, l));
+                            if !pending && !invalid {
+                                // a repeated notification answered with a wrong signature this time
+                                v.push(WOp::Misbehaving(t, l));
+                            }
+                        }
+                        if rt_.proof == Some(l) {
+                            v.push(WOp::LateReceipt(t, l));
+                        }
+                        if pending {
+                            v.push(WOp::RepeatPending(t, l));
+                        }
+                        if invalid {
+                            v.push(WOp::RepeatInvalid(t, l));
+                        }
                         if pending && !has_receipt {
                             v.push(WOp::RemovePending(t, l));
                             v.push(WOp::PendingToAccepted(t, l));
@@ -279,6 +301,13 @@ impl WWorld {
                 e.proof = Some(*l);
                 e.receipts.insert(*l, format!("towersig-{t}-{l}"));
             }
+            WOp::RepeatReceipt(t, l) | WOp::LateReceipt(t, l) => {
+                // nothing changes: the record is there (resp. the proof stays what it is)
+                let slots = self.reference.towers[t].slots;
+                c.add_appointment_receipt(tower_id(*t), locator(*l), slots, &receipt(*t, *l));
+            }
+            WOp::RepeatPending(t, l) => c.add_pending_appointment(tower_id(*t), &appointment(*l)),
+            WOp::RepeatInvalid(t, l) => c.add_invalid_appointment(tower_id(*t), &appointment(*l)),
             WOp::Abandon(t) => {
                 let r = c.remove_tower(tower_id(*t));
                 assert!(r.is_ok(), "abandon failed: {r:?}");
